@@ -31,8 +31,18 @@ ASSUMPTIONS = [
 def cases(draw, tier, wide=False):
     if wide:
         # registers wider than a machine word / a byte of packed bits, hundreds of shots
-        n = draw(st.sampled_from([7, 8, 9, 15, 16, 17, 31, 32, 33, 63, 64, 65, 70]))
+        n = draw(st.sampled_from([7, 8, 9, 15, 16, 17, 31, 32, 33, 63, 64, 65, 65, 70, 70, 130]))
         pool = draw(st.lists(st.lists(st.integers(0, 1), min_size=n, max_size=n).map(tuple), min_size=1, max_size=8))
+        if draw(st.booleans()):
+            # outcomes that agree almost everywhere and differ in one or two positions (often the last ones)
+            base = list(pool[0])
+            where = st.integers(max(0, n - 6), n - 1) if draw(st.booleans()) else st.integers(0, n - 1)
+            for _ in range(draw(st.integers(1, 4))):
+                v = list(base)
+                for pos in draw(st.lists(where, min_size=1, max_size=2)):
+                    v[pos] ^= 1
+                pool.append(tuple(v))
+            pool = pool[:1] + pool[-4:] if draw(st.booleans()) else pool
         shots = draw(st.lists(st.sampled_from(pool), min_size=draw(st.sampled_from([1, 2, 50, 127, 128, 255, 256, 257])), max_size=300 if tier == "quick" else 1000))
     else:
         n = draw(st.integers(1, 6))
@@ -40,7 +50,7 @@ def cases(draw, tier, wide=False):
         shots = draw(st.lists(st.sampled_from(pool), min_size=draw(st.sampled_from([1, 2, 4, 8, 16])), max_size=40 if tier == "quick" else 120))
     terms = []
     for _ in range(draw(st.sampled_from([0, 1, 2, 3, 3, 4, 5, 6]))):
-        qs = draw(st.lists(st.integers(0, n - 1), unique=True, max_size=min(n, 12)))
+        qs = draw(st.lists(st.one_of(st.integers(0, n - 1), st.integers(max(0, n - 6), n - 1)), unique=True, max_size=min(n, 12)))
         c = draw(st.one_of(st.floats(-3, 3, allow_nan=False), st.integers(-2, 2)))
         terms.append({"q": sorted(qs), "c": c})
     if terms and draw(st.integers(0, 3)) == 0:
@@ -247,6 +257,6 @@ SUBCHECKS = [
 SUBCHECKS.append(SubCheck("measurement_history", None, machine=machine, examples=(300, 2000), shards=(2, 8), steps=(12, 25),
                           rule="one Measurements object queried (counts / distribution / expectation values) between replacements, edits and extensions of "
                                "its shots: every report equals the statistic of the shots it holds at that moment; non-trivial = shots replaced or edited after a query"))
-SUBCHECKS.append(SubCheck("wide_long", oracle, strategy=lambda tier: cases(tier, wide=True), examples=(150, 800), shards=(4, 16),
+SUBCHECKS.append(SubCheck("wide_long", oracle, strategy=lambda tier: cases(tier, wide=True), examples=(250, 1200), shards=(4, 16),
                           rule="same oracle on registers of 7..70 qubits (around byte / word boundaries), up to 300 (1000) shots, counts up to 70000"))
 SUBCHECKS[0].expected_classes = ["constant_term", "overlapping_supports", "single_shot", "repeated_support"]
